@@ -18,6 +18,17 @@ class Node:
         if wiring == "tunnel":
             from ipv8.messaging.anonymization.endpoint import TunnelEndpoint
             self.endpoint = TunnelEndpoint(self.sim_endpoint)
+        self.address6 = None
+        if wiring == "dual":
+            # a dual-stack host as ipv8_service builds it: a DispatcherEndpoint over an IPv4 and an IPv6 interface
+            from ipv8.messaging.interfaces.dispatcher.endpoint import DispatcherEndpoint
+            self.sim_endpoint6 = net.endpoint(ip="fd00::%x" % net.next_host, port=port)
+            disp = DispatcherEndpoint([])
+            disp.interfaces = {"UDPIPv4": self.sim_endpoint, "UDPIPv6": self.sim_endpoint6}
+            disp.interface_order = ["UDPIPv4", "UDPIPv6"]
+            disp._preferred_interface = self.sim_endpoint
+            self.endpoint = disp
+            self.address6 = self.sim_endpoint6.addr
         self.network = Network()
         self.key = key or default_eccrypto.generate_key(curve)
         self.address = self.sim_endpoint.addr
